@@ -127,6 +127,17 @@ fn write_if_changed(p: &Path, content: &str) {
     std::fs::write(p, content).unwrap();
 }
 
+static VARIANT: std::sync::RwLock<&'static str> = std::sync::RwLock::new("");
+
+/// Build/run variant of the subjects crate: "" (default features, tracking allocator), "-nommap"
+/// (epserde without the `mmap` feature), "-asan" (nightly, AddressSanitizer, no tracking allocator).
+pub fn set_variant(v: &'static str) {
+    *VARIANT.write().unwrap() = v;
+}
+pub fn variant() -> &'static str {
+    *VARIANT.read().unwrap()
+}
+
 pub fn subjects_dir(variant: &str) -> PathBuf {
     PathBuf::from(format!("{}/subjects{}", WORK, variant))
 }
@@ -148,15 +159,16 @@ overflow-checks = true
 debug-assertions = true
 
 # the generated program itself is compiled without optimisation: it is large and rebuilt on every change of /repo
-[profile.dev.package.vsubjects]
-opt-level = 0
-debug = 0
 "#;
 
 /// Write the subjects crate for the given universes. `variant`: "" (default features) or "-nommap".
 pub fn write_crate(universes: &[(String, Universe)], variant: &str) -> PathBuf {
     let dir = subjects_dir(variant);
-    let features = if variant == "-nommap" { "default-features = false, features = [\"track_alloc\"]" } else { "default-features = true" };
+    let features = match variant {
+        "-nommap" => "default-features = false, features = [\"track_alloc\"]",
+        "-asan" => "default-features = false, features = [\"mmap\"]",
+        _ => "default-features = true",
+    };
     let toml = format!(
         r#"[package]
 name = "vsubjects{v}"
@@ -174,6 +186,10 @@ epserde = {{ path = "{r}/epserde", default-features = false, features = ["std", 
 [patch.crates-io]
 epserde-derive = {{ path = "{r}/epserde-derive" }}
 {PROFILE}
+# the generated program itself is compiled without optimisation: it is large and rebuilt on every change of /repo
+[profile.dev.package.vsubjects{v}]
+opt-level = 0
+debug = 0
 "#,
         v = variant.replace('-', "_"),
         h = HARNESS,
@@ -225,9 +241,16 @@ pub fn cargo() -> Command {
 /// Build all bins of the subjects crate; returns per-bin errors.
 pub fn cargo_build(dir: &Path, keep_going: bool) -> BuildOutcome {
     let mut c = cargo();
+    if variant() == "-asan" {
+        c.arg("+nightly");
+        c.env("RUSTFLAGS", "-Zsanitizer=address --cfg epserde_verif").env("CARGO_TARGET_DIR", format!("{}/target-asan", WORK));
+    }
     c.arg("build").arg("--manifest-path").arg(dir.join("Cargo.toml")).arg("--bins").arg("--message-format=json").arg("--offline");
     if keep_going {
         c.arg("--keep-going");
+    }
+    if variant() == "-asan" {
+        c.arg("--target").arg("x86_64-unknown-linux-gnu");
     }
     let out = c.output().expect("cargo");
     let stdout = String::from_utf8_lossy(&out.stdout);
@@ -263,13 +286,16 @@ pub fn cargo_check(dir: &Path) -> BuildOutcome {
 }
 
 pub fn bin_path(label: &str) -> String {
-    format!("{}/target/debug/{}", WORK, label)
+    match variant() {
+        "-asan" => format!("{}/target-asan/x86_64-unknown-linux-gnu/debug/{}", WORK, label),
+        _ => format!("{}/target/debug/{}", WORK, label),
+    }
 }
 
 /// Generate + build the given universes; returns their labels with descriptions.
 pub fn prepare(opts: &Opts, labels: &[String]) -> Result<Vec<(String, Universe)>, String> {
     let us: Vec<(String, Universe)> = labels.iter().map(|l| (l.clone(), universe_by_label(l, opts))).collect();
-    let dir = write_crate(&us, "");
+    let dir = write_crate(&us, variant());
     let b = cargo_build(&dir, false);
     if !b.ok {
         let mut msg = String::from("build of generated subject programs failed\n");
@@ -295,9 +321,12 @@ pub enum RunOutcome {
 }
 
 fn run_once(label: &str, prop: &str, opts: &Opts, extra: &[String], capture: bool) -> RunOutcome {
-    let out = format!("{}/out/{}-{}-{}.json", WORK, prop, label, opts.tier);
+    let out = format!("{}/out/{}-{}-{}{}.json", WORK, prop, label, opts.tier, variant());
     std::fs::remove_file(&out).ok();
     let mut c = Command::new(bin_path(label));
+    if variant() == "-asan" {
+        c.env("ASAN_OPTIONS", "abort_on_error=1:detect_leaks=0:allocator_may_return_null=0:print_summary=1");
+    }
     c.arg("--universe").arg(universe_json_path(label)).arg("--prop").arg(prop).arg("--tier").arg(&opts.tier).arg("--seed").arg(opts.seed.to_string()).arg("--out").arg(&out);
     c.arg("--known").arg(format!("{}/known_findings.json", crate::VERIF));
     if !extra.iter().any(|e| e == "--threads") {
